@@ -73,9 +73,12 @@ REQUIRE = {
     "judged_root:Overlay:flow": 8,
     "judged_root:Overlay:fixed": 4,
     "judged_with:Padding-given-width": 20,
-    "judged_with:Padding-given-width-as-fixed": 8,
+    "judged_with:Padding-given-width-as-fixed": 4,
     "judged_root:Padding:fixed": 8,
     "judged_with:decoration-child-replaced": 10,
+    # round 7: the same widget OBJECT at several positions of one container
+    "judged_with:shared-widget-object": 30,
+    "c2_mouse_cells_on_shared_widget_objects": 300,
     # round 5: spy leaves whose geometry depends on the focus ARGUMENT
     "judged_with:focus-dependent-rows": 30,
     "judged_with:focus-dependent-width": 15,
@@ -173,6 +176,12 @@ ASSUMES = [
     "are removed, (d) the size history / before-render mode is dropped, is tagged |focus-dependent-geometry, |child-replaced, "
     "|zero-width-column, |after-other-size / |before-render (first that applies) with its kind collapsed to the family; everything "
     "blamed on a fixed-size Padding with a given width is filed under |given-width-as-fixed",
+    "round 7: a container item may be {'k': 'same', 'of': i}: the widget OBJECT of sibling i at a further position (Pile, Columns, GridFlow "
+    "cells, ListBox walker, Frame footer = header). Leaves are then identified by glyph AND position: the glyph pattern of the leaf "
+    "rendered alone is laid over the canvas in reading order, one rectangle per occurrence (all occurrences must have been rendered at one "
+    "size); events, moves and presses are judged against the occurrence under the cell; the focus chain follows focus_position. A violation "
+    "that vanishes when each position gets an object of its own is tagged |shared-widget-object and names the container(s) holding the "
+    "repeated object",
     "a fixed spy raises ValueError when handed a non-() size, like urwid's own fixed-only widgets raise WidgetError",
     "size histories: the fit precondition is established at the probe size S only; the other sizes need not fit and exceptions raised while "
     "touching them are counted, not judged; if rendering at S after the history shows another picture than the canvas kept for S (scroll "
@@ -200,11 +209,19 @@ class Obs:
         self.sizes = {}  # id(widget) -> size it was rendered at (last)
         self.dims = {}  # id(widget) -> (cols, rows) of the canvas it produced
         self.rows_disagree = False
+        self.occ = {}  # sid -> [(left, top, cols, rows)] one per position at which the leaf's widget object is drawn (reading order)
+        self.cellocc = {}  # (c, r) -> index into occ[sid] (absent = 0)
         self.occluded = set()  # leaves of an Overlay's backdrop whose rectangle cannot be read off the canvas: not judged
         self.after_history = False  # probing follows a history of touches at other sizes (cache enabled)
         self.keep = None
         self.canvas = None  # the root canvas for this size ("what is on screen"); keeping it keeps the cache entries alive
         self.cols = self.rows = 0
+
+
+def rect_at(o, cell):
+    """rectangle of the occurrence of the leaf that is drawn at `cell`"""
+    lf = o.cellmap[cell]
+    return o.occ[lf.sid][o.cellocc.get(cell, 0)]
 
 
 def read_grid(canv):
@@ -361,6 +378,23 @@ def observe(root, size, log, focus=True) -> Obs:
         if len(rsizes[lf.sid]) != 1:
             o.reason = "leaf_rendered_at_several_sizes"
             return o
+        mult = lf.multiplicity()
+        if mult > 1:
+            # the same widget OBJECT sits at several positions: its glyph is drawn once per occurrence.  The occurrences are told
+            # apart by position: the pattern of glyph cells of the leaf rendered alone is laid over the canvas in reading order
+            occ = tile_occurrences(lf, cells)
+            if occ is None or len(occ) != mult:
+                o.reason = "leaf_clipped"
+                return o
+            o.occ[lf.sid] = occ
+            o.rects[lf.sid] = occ[0]
+            for k, (ox, oy, _c, _r, block) in enumerate(occ):
+                for c in block:
+                    o.cellmap[c] = lf
+                    o.cellocc[c] = k
+            o.occ[lf.sid] = [t[:4] for t in occ]
+            o.rects[lf.sid] = o.occ[lf.sid][0]
+            continue
         if lf.kind == "spy":
             cols, rows = lf.w.last_dims
             x0 = min(c[0] for c in cells)
@@ -393,10 +427,40 @@ def observe(root, size, log, focus=True) -> Obs:
                 o.reason = "leaf_clipped"
                 return o
             o.rects[lf.sid] = (left, fy, lf.w.last_size[0] if lf.w.last_size else None, None)
+        o.occ[lf.sid] = [o.rects[lf.sid]]
         for c in cells:
             o.cellmap[c] = lf
     o.ok = True
     return o
+
+
+def tile_occurrences(lf, cells):
+    """[(left, top, cols, rows, cells-of-this-occurrence)] in reading order, or None if the drawn cells are not whole copies"""
+    try:
+        with warnings.catch_warnings():
+            warnings.simplefilter("ignore")
+            alone = lf.w.render(lf.w.last_size, False)
+        grid = read_grid(alone)
+    except Exception:  # noqa: BLE001
+        return None
+    pat = sorted(((x, y) for y, row in enumerate(grid) for x, ch in enumerate(row) if ch == lf.glyph), key=lambda c: (c[1], c[0]))
+    if not pat:
+        return None
+    if lf.kind == "spy":
+        cols, rows = alone.cols(), alone.rows()
+    else:
+        cols, rows = (lf.w.last_size[0] if lf.w.last_size else None), None
+    remaining = set(cells)
+    out = []
+    while remaining:
+        c0 = min(remaining, key=lambda c: (c[1], c[0]))
+        ox, oy = c0[0] - pat[0][0], c0[1] - pat[0][1]
+        block = {(ox + x, oy + y) for x, y in pat}
+        if ox < 0 or oy < 0 or not block <= remaining:
+            return None
+        remaining -= block
+        out.append((ox, oy, cols, rows, block))
+    return out
 
 
 # ----------------------------------------------------------------------------- helpers
@@ -479,6 +543,16 @@ def focus_chain(root):
         for c in n.children:
             if c.w is f:
                 nxt = c
+        fp = None
+        if n.kind in ("Pile", "Columns", "GridFlow", "ListBox"):
+            try:
+                fp = n.w.focus_position
+            except Exception:  # noqa: BLE001
+                fp = None
+        if isinstance(fp, int) and 0 <= fp < len(n.children) and n.children[fp].w is f:
+            nxt = n.children[fp]  # the same object may sit at several positions: the focus is a position
+        if nxt is not None and nxt.kind == "same":
+            nxt = nxt.target  # another occurrence of that sibling's widget: the focus chain continues inside the one object
         n = nxt
     return out
 
@@ -649,7 +723,9 @@ class Case:
             path = (node_desc(chain[0], child_toward(chain[0], leaf)) + ">" if chain else "") + node_desc(leaf)
         else:
             path = node_desc(self.root)
-        self.collect.append({"clause": clause, "kind": kind, "path": path, "msg": msg, "op": op, "leaf": leaf.sid if leaf is not None else None})
+        self.collect.append(
+            {"clause": clause, "kind": kind, "path": path, "msg": msg, "op": op, "leaf": leaf.sid if leaf is not None else None, "shared": leaf is not None and leaf.multiplicity() > 1}
+        )
 
     # ---- clause 1
     def clause1(self, o, after=None, when=None, extra=None):
@@ -681,6 +757,11 @@ class Case:
             if any(not b.is_leaf() and not hasattr(b.w, "get_cursor_coords") for b in below):
                 # outside the quantifier: a container below does not implement the cursor protocol (Scrollable, ScrollBar)
                 ctx.count("c1_skipped_chain_without_protocol")
+                continue
+            if o.occluded and any(l.sid in o.occluded for l in n.leaves()):
+                # part of this subtree is an Overlay backdrop whose leaves could not be read off the canvas: the fit precondition is
+                # not established for it
+                ctx.count("c1_not_judged_subtree_with_occluded_backdrop_leaves")
                 continue
             if self.fdep and id(n) not in onchain:
                 # the fit precondition was established for the unfocused rendering of this container; with geometry that depends
@@ -759,7 +840,7 @@ class Case:
     def expect_mouse(self, o, cell, entries, clause, op):
         """judge the leaf log after one event at `cell`"""
         lf = o.cellmap[cell]
-        left, top = o.rects[lf.sid][:2]
+        left, top = rect_at(o, cell)[:2]
         want = (cell[0] - left, cell[1] - top)
         if not entries and under_overlay_bottom(lf):
             # documented: Overlay passes events to top_w only ("ignore if outside of top_w"); the backdrop is inert
@@ -808,6 +889,8 @@ class Case:
                     self.viol("c2", f"mouse_event-raise:{exc_kind(e)}", o.cellmap[cell], f"mouse_event at {cell} raised {type(e).__name__}: {e}", op)
                     continue
                 ctx.count("c2_mouse_cells")
+                if o.cellmap[cell].multiplicity() > 1:
+                    ctx.count("c2_mouse_cells_on_shared_widget_objects")
                 if self.cold:
                     ctx.count("c2_mouse_cells_before_render")
                 if o.after_history:
@@ -832,6 +915,9 @@ class Case:
         rng = ctx.subrng("b1", self.key, self.size)
         if getattr(ctx, "shrinking", False):
             picks = cells[:: max(1, len(cells) // 40)]  # while shrinking, do not depend on which cells a smaller tree happens to sample
+            mc = getattr(ctx, "must_cell", None)
+            if mc in o.cellmap and mc not in picks:
+                picks = [mc, *picks]
         else:
             picks = rng.sample(cells, min(len(cells), ctx.pick(4, 8)))
         for cell in picks:
@@ -864,7 +950,7 @@ class Case:
         lf = of.cellmap[cell]
         handled = [e[2] for e in self.log if e[0] == "mouse_ret" and e[1] == lf.sid]
         # the cell the Edit itself was told (whether the containers translated it correctly is judged by c2b, not here)
-        pressed_local = (entries[0][5], entries[0][6]) if len(entries) == 1 else (cell[0] - of.rects[lf.sid][0], cell[1] - of.rects[lf.sid][1])
+        pressed_local = (entries[0][5], entries[0][6]) if len(entries) == 1 else (cell[0] - rect_at(of, cell)[0], cell[1] - rect_at(of, cell)[1])
         self.clause1(of, when="after-press", extra={"after_press": [cell[0], cell[1]]})
         if not (len(entries) == 1 and entries[0][1] == lf.sid):
             return
@@ -882,7 +968,11 @@ class Case:
         if own is None:
             ctx.count("c4_pressed_leaf_shows_no_cursor")
             return
-        left, top = o3.rects[lf.sid][:2]
+        k_occ = of.cellocc.get(cell, 0)  # the position that was pressed (occurrences keep their reading order)
+        if k_occ >= len(o3.occ.get(lf.sid, ())):
+            ctx.count("c4_precondition_lost_after_press")
+            return
+        left, top = o3.occ[lf.sid][k_occ][:2]
         want = (left + own[0], top + own[1])
         self.chill()
         try:
@@ -894,7 +984,7 @@ class Case:
         # (not in trees with focus-dependent geometry: the press may move the focus and re-lay the Edit out at another width)
         # (and only if the Edit was handed the size it had been rendered at -- otherwise the container above is at fault, see c2b)
         same_size = len(entries) == 1 and tuple(entries[0][2]) == tuple(lf.w.last_size or ())
-        if lf.kind == "Edit" and handled and handled[-1] is True and not self.fdep and same_size and tuple(o3.rects[lf.sid]) == tuple(of.rects[lf.sid]):
+        if lf.kind == "Edit" and handled and handled[-1] is True and not self.fdep and same_size and lf.multiplicity() == 1 and tuple(o3.rects[lf.sid]) == tuple(of.rects[lf.sid]):
             # a press an Edit reports as handled is a move_cursor_to_coords to that cell: the cursor must be on the pressed row
             ctx.count("c4_edit_press_row_evals")
             if own[1] != pressed_local[1]:
@@ -968,7 +1058,8 @@ class Case:
                     ctx.count("c3_not_judged_unfocused_container_with_focus_dependent_geometry")
                     continue
             lf = o.cellmap[cell]
-            left, top, lcols, lrows = o.rects[lf.sid]
+            left, top, lcols, lrows = rect_at(o, cell)
+            k_occ = o.cellocc.get(cell, 0)
             lx, ly = cell[0] - left, cell[1] - top
             op = {"op": "move", "col": cell[0], "row": cell[1], "after": list(history)}
             del self.log[:]
@@ -1045,7 +1136,7 @@ class Case:
                 # geometry depends on the focus argument and the move may have moved the focus: the requested cell keeps its
                 # meaning only if the target leaf is still drawn where it was
                 o_new = observe(root, self.size, self.log, self.focus)
-                if not o_new.ok or tuple(o_new.rects.get(lf.sid, ())) != (left, top, lcols, lrows):
+                if not o_new.ok or k_occ >= len(o_new.occ.get(lf.sid, ())) or tuple(o_new.occ[lf.sid][k_occ]) != (left, top, lcols, lrows):
                     judge_row = False
                     ctx.count("c3_row_not_judged_focus_dependent_layout_shifted")
             if judge_row and not bad:
@@ -1216,7 +1307,7 @@ def subcases(recipe, size, focus=True):
     return out
 
 
-def steps_for(key, hist):
+def steps_for(key, hist, op=None):
     """which steps of Case.run are needed to reproduce a violation of this (clause, kind) while shrinking"""
     clause, kind = key
     c3_first = bool(hist and hist.get("c3_first"))
@@ -1227,7 +1318,7 @@ def steps_for(key, hist):
             return {"c3"}
         if kind.endswith(":after-key"):
             return {"c3", "keys"}
-        return {"c1", "c3"} if c3_first else {"c1"}
+        return {"c1", "c3"} if (c3_first or (op or {}).get("after_moves")) else {"c1"}
     if clause == "c2":
         return {"c2", "c3"} if c3_first else {"c2"}
     if clause in ("c2b", "c4"):
@@ -1240,9 +1331,10 @@ class Quiet:
 
     shrinking = True
 
-    def __init__(self, ctx, want=None):
+    def __init__(self, ctx, want=None, cell=None):
         self._ctx = ctx
         self.tier = ctx.tier
+        self.must_cell = cell  # the cell of the violation being classified: always among the (sub-sampled) button-1 cells
         self.want = want  # the steps of a case that are needed to reproduce one kind of violation (None = all)
         self.extra = {}
 
@@ -1269,6 +1361,39 @@ def neutral(recipe):
     if isinstance(recipe, list):
         return [neutral(v) for v in recipe]
     return recipe
+
+
+def sharing_kinds(recipe, out=None):
+    out = set() if out is None else out
+    if isinstance(recipe, dict):
+        for c in T.children_of(recipe) if recipe.get("k") else []:
+            if c.get("k") == "same":
+                out.add(recipe["k"])
+            sharing_kinds(c, out)
+    return out
+
+
+def without_shared(recipe, only=None):
+    """(only = a container kind: un-share in containers of that kind only)  the same recipe with every further occurrence of a sibling's widget object replaced by a copy of that sibling's RECIPE
+    (an object of its own at each position; glyphs are allocated per built leaf, so the copies are distinguishable)"""
+    if isinstance(recipe, list):
+        return [without_shared(v, only) for v in recipe]
+    if not isinstance(recipe, dict):
+        return recipe
+    r = {k: without_shared(v, only) for k, v in recipe.items()}
+    k = r.get("k")
+    if only is not None and k != only:
+        return r
+    if k in ("Pile", "Columns"):
+        sib = [c for _o, c in r["items"]]
+        r["items"] = [[o, sib[c["of"]] if c["k"] == "same" else c] for o, c in r["items"]]
+    elif k == "GridFlow":
+        r["cells"] = [r["cells"][c["of"]] if c["k"] == "same" else c for c in r["cells"]]
+    elif k == "ListBox":
+        r["items"] = [r["items"][c["of"]] if c["k"] == "same" else c for c in r["items"]]
+    elif k == "Frame" and (r.get("footer") or {}).get("k") == "same":
+        r["footer"] = r.get("header")
+    return r
 
 
 def without_fixedw_padding(recipe):
@@ -1316,6 +1441,7 @@ def without_empty_columns(recipe):
         if len(keep) != len(r["items"]) and keep:
             new_index = {old: new for new, old in enumerate(keep)}
             r["items"] = [r["items"][i] for i in keep]
+            r["items"] = [[o, dict(c, of=new_index.get(c["of"], 0)) if c.get("k") == "same" else c] for o, c in r["items"]]
             if r.get("focus") is not None:
                 r["focus"] = new_index.get(r["focus"], 0)
             r["box"] = [new_index[b] for b in r.get("box", []) if b in new_index]
@@ -1409,7 +1535,7 @@ def blame(recipe, size, focus, v, hist=None):
     leaf is rendered alone at the size it was observed to be handed, the leaf is located on A's own canvas (which gives
     A's top-left on the root canvas), and the same operation is put to A directly with translated coordinates.
     Returns (path-description, mode) of the innermost ancestor that misbehaves, or None (root / not reproducible)."""
-    if v.get("leaf") is None or v["clause"] not in ("c2", "c2b", "c3"):
+    if v.get("leaf") is None or v["clause"] not in ("c2", "c2b", "c3") or v.get("shared"):
         return None
     op = v["op"]
     size = tuple(size)
@@ -1543,7 +1669,9 @@ def report(ctx, recipe, size, viols, focus=True, hist=None):
             ctx.violation(seen_sigs[0], v["msg"] + f"  [root rendered at {tuple(size)}; not shrunk]", {"recipe": strip(recipe), "size": list(size), "focus": focus, "hist": hist, "clause": v["clause"], "kind": v["kind"], "op": v["op"]})
             continue
         r, s, best = recipe, list(size), v
-        q = Quiet(ctx, steps_for(key, hist))
+        vop = v.get("op") or {}
+        vcell = vop.get("after_press") or ([vop["col"], vop["row"]] if "col" in vop else None)
+        q = Quiet(ctx, steps_for(key, hist, vop), tuple(vcell) if vcell else None)
         t_shrink = time.monotonic()
         for _ in range(8):
             moved = False
@@ -1570,6 +1698,15 @@ def report(ctx, recipe, size, viols, focus=True, hist=None):
         has_fdep = best["clause"] in ("c2", "c2b", "c3") and bool({"focus-dependent-rows", "focus-dependent-width"} & T.kinds_of(r))
         has_zero = best["clause"] in ("c2", "c2b", "c3") and "Columns-zero-width-column" in T.kinds_of(r)
         base = run_same(q, r, s, focus, hist, key)  # the classifier below is only meaningful if the shrinking run reproduces it at all
+        if not base and r is not recipe:
+            # the shrunk subtree showed it once but does not reproduce it: go back to the case as it was found
+            r, s, best = recipe, list(size), v
+            key = (v["clause"], v["kind"])
+            path, mode = best["path"], best.get("mode") or mode_of(s)
+            has_fdep = best["clause"] in ("c2", "c2b", "c3") and bool({"focus-dependent-rows", "focus-dependent-width"} & T.kinds_of(r))
+            has_zero = best["clause"] in ("c2", "c2b", "c3") and "Columns-zero-width-column" in T.kinds_of(r)
+            base = run_same(q, r, s, focus, hist, key)
+            ctx.count("shrink_undone_not_reproducible")
         kinds_r = T.kinds_of(r)
         stale = ""
         if not base:
@@ -1582,6 +1719,8 @@ def report(ctx, recipe, size, viols, focus=True, hist=None):
                 needs.append("|given-width-as-fixed")  # Padding(width=n) at size (): fine with a fixed Columns([('given', n, child)]) instead
             if "decoration-child-replaced" in kinds_r and not run_same(q, without_swap(r), s, focus, hist, key):
                 needs.append("|child-replaced")  # original_widget assigned after construction: fine when passed to the constructor
+            if "shared-widget-object" in kinds_r and not run_same(q, without_shared(r), s, focus, hist, key):
+                needs.append("|shared-widget-object")  # fine when every position holds an object of its own
             if has_zero and not run_same(q, without_empty_columns(r), s, focus, hist, key):
                 needs.append("|zero-width-column")  # fine without the hidden columns
             if has_fdep and not run_same(q, neutral(r), s, focus, hist, key):
@@ -1595,6 +1734,9 @@ def report(ctx, recipe, size, viols, focus=True, hist=None):
                 if "decoration-child-replaced" in kinds_r:
                     cands.append("|child-replaced")
                     rr = without_swap(rr)
+                if "shared-widget-object" in kinds_r:
+                    cands.append("|shared-widget-object")
+                    rr = without_shared(rr)
                 if has_zero:
                     cands.append("|zero-width-column")
                     rr = without_empty_columns(rr)
@@ -1621,10 +1763,18 @@ def report(ctx, recipe, size, viols, focus=True, hist=None):
             # the state left behind belongs to the container: the leaf class and press-1 vs other events add nothing
             path = path.split(">")[0]
             clause = {"c2b": "c2"}.get(clause, clause)
-            if stale in ("|focus-dependent-geometry", "|zero-width-column"):
+            if stale in ("|focus-dependent-geometry", "|zero-width-column", "|shared-widget-object"):
                 path = path.split("[")[0] if path.startswith(("Pile", "Columns")) else path
             if stale == "|given-width-as-fixed":
                 path, mode = "Padding[w=given]", "fixed"
+            if stale == "|shared-widget-object":
+                # every container above shows it too: name the container(s) that hold one object at several positions
+                sk = sorted(sharing_kinds(r))
+                if len(sk) > 1:
+                    # several containers repeat an object: name the one whose un-sharing alone makes the violation vanish
+                    alone = [k_ for k_ in sk if not run_same(q, without_shared(r, k_), s, focus, hist, key)]
+                    sk = alone[:1] or sk
+                path, mode = "+".join(sk) or path, "-"
             if stale == "|child-replaced":
                 # every container above the decoration shows it too: name the decoration(s) whose child was assigned, not the node
                 sk = swapped_kinds(r)
@@ -1637,7 +1787,7 @@ def report(ctx, recipe, size, viols, focus=True, hist=None):
             path = "Padding[w=given]"
             clause = {"c2b": "c2"}.get(clause, clause)
             sigkind = kind_family(sigkind)
-        if stale in ("|child-replaced", "|given-width-as-fixed"):
+        if stale in ("|child-replaced", "|given-width-as-fixed", "|shared-widget-object"):
             sigkind = kind_family(sigkind)
         if stale and kind_family(sigkind) in ("event-misrouted", "move-misrouted", "cursor-not-on-requested-row"):
             # which wrong cell a stale layout happens to hit (none / neighbour / shifted col or row) is an accident of the sizes
@@ -1878,6 +2028,16 @@ SEEDS = [
     ({"k": "Padding", "c": _spy(rows=2, cur=[1, 1]), "align": "center", "width": 4, "left": 1, "right": 2, "fixedw": True}, []),
     ({"k": "LineBox", "c": {"k": "Edit", "cap": 0, "len": 3, "pos": 1, "wrap": "any"}, "swap": True}, [8]),
     ({"k": "Pile", "items": [[["pack"], _spy(rows=1, sel=False)], [["pack"], {"k": "LineBox", "c": _spy(rows=1, cur=[1, 0]), "sides": "lr", "swap": True}]]}, [8]),
+    ({"k": "Columns", "items": [[["given", 5], _spy(rows=1, cur=[3, 0])], [["given", 4], _spy(rows=2)], [["given", 5], {"k": "same", "of": 0}], [["given", 5], {"k": "same", "of": 0}]], "div": 1, "focus": 0}, [24]),
+    ({"k": "Columns", "items": [[["weight", 1], {"k": "Edit", "cap": 0, "len": 3, "pos": 3, "wrap": "any"}], [["weight", 1], {"k": "same", "of": 0}]], "div": 0, "focus": 1}, [12]),
+    ({"k": "GridFlow", "cells": [{"k": "Button", "len": 2}, {"k": "same", "of": 0}, {"k": "same", "of": 0}], "cw": 6, "hs": 1, "vs": 0, "align": "left", "focus": 0}, [22]),
+    ({"k": "GridFlow", "cells": [_spy(rows=1, cur=[1, 0]), _spy(rows=1), {"k": "same", "of": 0}], "cw": 4, "hs": 1, "vs": 1, "align": "left", "focus": 2}, [9]),
+    ({"k": "Pile", "items": [[["pack"], {"k": "Edit", "cap": 0, "len": 3, "pos": 3, "wrap": "any"}], [["pack"], _spy(rows=1, sel=False)], [["pack"], {"k": "same", "of": 0}]], "focus": 0}, [6]),
+    ({"k": "Pile", "items": [[["pack"], _spy(rows=2, cur=[1, 1])], [["pack"], {"k": "same", "of": 0}], [["pack"], _spy(rows=1)]], "focus": 1}, [6]),
+    ({"k": "ListBox", "items": [_spy(rows=1, cur=[2, 0]), _spy(rows=2), {"k": "same", "of": 0}], "focus": 0}, [6, 6]),
+    ({"k": "Frame", "body": _spy("box"), "header": _spy(rows=1, cur=[2, 0]), "footer": {"k": "same", "of": "header"}, "fp": "header"}, [6, 6]),
+    ({"k": "Frame", "body": _spy("box"), "header": {"k": "Edit", "cap": 0, "len": 3, "pos": 1, "wrap": "any"}, "footer": {"k": "same", "of": "header"}, "fp": "footer"}, [6, 6]),
+    ({"k": "Pile", "items": [[["pack"], {"k": "Columns", "items": [[["weight", 1], _spy(rows=1, cur=[1, 0])], [["weight", 1], _spy(rows=1)]], "div": 1}], [["pack"], _spy(rows=1)], [["pack"], {"k": "same", "of": 0}]], "focus": 2}, [9]),
     ({"k": "BoxAdapter", "c": _spy("box"), "h": 3}, [5]),
     ({"k": "LineBox", "c": _spy()}, [6]),
     ({"k": "GridFlow", "cells": [_spy(), _spy(), _spy()], "cw": 3, "hs": 1, "vs": 1, "align": "center"}, [8]),
